@@ -22,6 +22,12 @@ BUILT = {
  'C08': dict(cat='exploration', tech='postcondition monitors interposed on maxvol / maxvol_rect / _maxvol (all calls incl. those from TT-cross) plus a sys.monitoring line probe counting row swaps',
    text='Every execution is judged: distinct in-range row numbers of the promised count, A = B A[I], B[I] = identity, max|B| <= e when the swap count stayed below k (independent coefficients by a linear solve), row norms <= e when the rectangular variant stopped early, ValueError for non-tall input and inconsistent dr_min/dr_max.',
    note='Tolerance 100 eps cond(A[I]) max(1,|B|) |A[I]|; inputs are tall matrices of full column rank (cond <= 1e8) incl. duplicate and zero rows.', ref='§4 C08'),
+ 'C07': dict(cat='exploration', tech='per-update contract interposed on als._optimize_core / als_func._optimize_core (normal equations of every trained slice), objective trajectory from callback / interposed accuracy, metamorphic restart and permutation runs calibrated by measured rounding amplification, np.empty poison for the rank-adaptive mode',
+   text='Every core update of every run is judged to be the regularised least-squares minimiser with untouched slices byte-identical; the recomputed objective never increases; shape/ranks kept; the last-updated core is optimal w.r.t. independently rebuilt interfaces; all splittings a+b and 3 permutations agree; ValueError / info / callback contract; rank-adaptive results finite with ranks <= r under poisoned np.empty.',
+   note='lamb=None is outside the quantifier; instances amplifying 1e-14 data perturbations by > 1e6 are not judged for restart/permutation; als_func with thr_pow=0.', ref='§4 C07'),
+ 'C15': dict(cat='exploration', tech='postcondition monitors interposed on optima_tt_beam / optima_tt_max / optima_tt (all external and internal calls) against the longdouble dense tensor of the call argument; end-to-end monitors for optima_qtt, optima_tt_maxvol, optima_func_tt_beam; known findings keyed by mechanism',
+   text='Indices in bounds, reported values equal the entries, min <= max; exactness judged value-wise under a full beam and for rank-1 tensors; quantised variant mapped back by an own index map; functional variant against chebroots of the derivative plus a grid. Three mechanisms (K1, K2, K4) are genuine, unrepaired findings and are reported as KNOWN-FINDING.',
+   note='Tolerances 10(sum ranks+d) eps absbound for entries; known findings are matched by mechanism (rank-1 and pruning beam and correct max-modulus and opposite extreme missed; rank-deficient matrix handed to maxvol), never by seed.', ref='§4 C15'),
  'C01': dict(cat='exploration', tech='shadow-value runtime monitor: random expression programs evaluated by the real functions, every node and observer compared with a longdouble / exact-integer dense shadow',
    text='Oracle on executions of the real add/sub/mul/outer/copy and all evaluation routines over generated programs and TT families; held on the K programs listed in the evidence, never "verified".',
    note='Trusted: NumPy longdouble arithmetic as dense reference; tolerance 10(sum ranks+d)2^-52*absbound; exact Python ints for integer cores.', ref='§4 C01'),
